@@ -42,6 +42,19 @@ let run (fn : string) (bs : coq_N list) (arg : int) : string * string =
   | "hevc.GetParameterSets" ->
     show (fun ((v, s), p) -> nalus_string v ^ ";" ^ nalus_string s ^ ";" ^ nalus_string p)
       (hevc_get_parameter_sets bs)
+  | "sei.DecodePicTimingHevcSEI" ->
+    let bit k = (arg lsr k) land 1 = 1 in
+    let fld k = n_of_int ((arg lsr k) land 31) in
+    let p = { hp_ffi = bit 0; hp_cpb = bit 1; hp_subpic = bit 2; hp_subpic_in_pt = bit 3;
+              hp_la = fld 4; hp_lb = fld 9; hp_lc = fld 14; hp_ld = fld 19 } in
+    (match decode_pic_timing_hevc p bs with
+     | Ok ((((fields, nal), inc), e), _) ->
+       if e then ("err", "")
+       else ("ok", S.concat ";" [S.concat "," (L.map hex_of_n fields); S.concat "," (L.map hex_of_n nal);
+                                 S.concat "," (L.map hex_of_n inc)])
+     | Err -> ("err", "")
+     | Panic -> ("panic", "")
+     | OutOfFuel -> ("hang", ""))
   | _ -> ("unknown-function", "")
 
 let () =
